@@ -1037,6 +1037,8 @@ def gen_case(rng, tier, i):
             s, intent = mutate(rng, dt, s), "mutated"
             if rng.random() < 0.2:
                 s = mutate(rng, dt, s)
+        # "1e9999999"^^xsd:decimal (not a valid form) makes rdflib's normalisation format gigabytes of zeros
+        s = re.sub(r"([eE][+-]?[0-9]{3})[0-9]+", r"\1", s)
         return {"kind": "lex", "dt": dt, "cps": [ord(c) for c in s], "intent": intent}
     if r < 0.83:
         return {"kind": "py", "v": gen_pyspec(rng)}
